@@ -1,8 +1,8 @@
 (* C08 - Expressions: C-like precedence, 64-bit two's-complement arithmetic, lazy ite, literal radix.
    Property theorems only; proofs in proofs/BinOpTreeProof.v, EvalProof.v, RadixProof.v. *)
-From DTR Require Import Prelude I64 Ast FramedMap Lexer Parser Eval.
+From DTR Require Import Prelude I64 Ast FramedMap Lexer Parser Grammar Eval.
 From DTR Require Import GeneratedTables.
-From DTR.proofs Require Import I64Facts BinOpTreeProof EvalProof RadixProof TablesProof.
+From DTR.proofs Require Import I64Facts BinOpTreeProof EvalProof RadixProof TablesProof LexerProof ParserProof GrammarProof ExprRoundTrip.
 Local Open Scope Z_scope.
 
 (* ---- precedence and associativity: the tree the parser builds by folding BinOpTree::add over
@@ -31,6 +31,53 @@ Theorem C08_left_associative : forall a0 l,
   bt_expr (fold_left (fun t p => bt_add t (fst p) (snd p)) l (BAtom a0))
   = fold_left (fun e p => EBin (fst p) e (snd p)) l a0.
 Proof. exact same_level_left_assoc. Qed.
+
+(* ---- unparse / parse round trip *)
+(* ROUND TRIP: any token sequence that PRINTS the tree e - minimal or redundant parentheses, any radix spelling of its literals (relation Prints) - followed by a token that cannot continue an expression, parses back to exactly e, consuming exactly those tokens *)
+Theorem C08_unparse_parse :
+  forall (input_len : N) (e : expr) (ts : list tok) (ts_tokens rest : list token) 
+  (st : pstate) (fuel : nat),
+  Prints e ts ->
+  view ts_tokens = ts ->
+  toks st = ts_tokens ++ rest ->
+  stop_expr rest ->
+  (2 * length ts + 2 <= fuel)%nat ->
+  exists st' : pstate,
+  parse_expr input_len fuel st = Ok (e, st') /\
+  toks st' = rest /\
+  pline st' = pline st /\
+  pvars st' = pvars st /\ pvirtuals st' = pvirtuals st /\ pexp_inputs st' = pexp_inputs st.
+Proof. exact C08_unparse_parse. Qed.
+
+(* in particular the precedence-aware minimal-parentheses printer pp_min *)
+Theorem C08_pretty_printer_round_trip :
+  forall (input_len : N) (e : expr) (ts_tokens rest : list token) (st : pstate) (fuel : nat),
+  printable e ->
+  view ts_tokens = pp_min e ->
+  toks st = ts_tokens ++ rest ->
+  stop_expr rest ->
+  (2 * length (pp_min e) + 2 <= fuel)%nat ->
+  exists st' : pstate,
+  parse_expr input_len fuel st = Ok (e, st') /\
+  toks st' = rest /\
+  pline st' = pline st /\
+  pvars st' = pvars st /\ pvirtuals st' = pvirtuals st /\ pexp_inputs st' = pexp_inputs st.
+Proof. exact C08_pp_min_parse. Qed.
+
+Theorem C08_pp_min_prints :
+  forall e : expr, printable e -> Prints e (pp_min e).
+Proof. exact pp_min_Prints. Qed.
+
+(* (a second, tree-directed definition of "printed with enough parentheses" that does not mention BinOpTree::add) *)
+Theorem C08_tree_directed_printing_prints :
+  forall (p : N) (e : expr) (ts : list tok), Printed p e ts -> Prints e ts.
+Proof. exact Printed_is_Prints. Qed.
+
+(* a token sequence prints at most one tree *)
+Theorem C08_prints_deterministic :
+  forall (e1 e2 : expr) (ts : list tok), Prints e1 ts -> Prints e2 ts -> e1 = e2.
+Proof. exact Prints_deterministic. Qed.
+
 
 (* ---- 64-bit two's complement arithmetic *)
 Theorem C08_results_are_64_bit : forall op l r v, i64 l -> i64 r -> binop_eval op l r = Ok v -> i64 v.
@@ -155,5 +202,7 @@ Proof. exact unop_eval_pinned. Qed.
 Check C08_tree_unique.
 Print Assumptions C08_tree_is_precedence_correct.
 Print Assumptions C08_tree_unique.
+Print Assumptions C08_unparse_parse.
+Print Assumptions C08_pretty_printer_round_trip.
 Print Assumptions C08_eval_is_64_bit.
 Print Assumptions C08_literal_hex.
